@@ -514,3 +514,365 @@ Proof. induction steps as [|st rest IH]; intros s HI; simpl; [exact HI|]. apply 
 Definition Reachable (s : state) : Prop := exists steps, s = run init steps.
 Lemma Reachable_Inv s : Reachable s -> Inv s.
 Proof. intros [steps ->]. apply run_inv, Inv_init. Qed.
+
+(** ** what a message can do to one token / one class *)
+Lemma mint_state_fields c t m a s :
+  nfts (mint_state c t m a s) = set (c, t) m (nfts s)
+  /\ owners (mint_state c t m a s) = set (c, t) a (owners s)
+  /\ classes (mint_state c t m a s) = classes s.
+Proof. repeat split. Qed.
+Lemma burn_state_fields c t s :
+  nfts (burn_state c t s) = del (c, t) (nfts s)
+  /\ owners (burn_state c t s) = del (c, t) (owners s)
+  /\ classes (burn_state c t s) = classes s.
+Proof. repeat split. Qed.
+Lemma transfer_state_fields c t a s :
+  nfts (transfer_state c t a s) = nfts s
+  /\ owners (transfer_state c t a s) = set (c, t) a (del (c, t) (owners s))
+  /\ classes (transfer_state c t a s) = classes s.
+Proof. repeat split. Qed.
+
+Lemma get_set_del {K V} `{EqDec K} (k k' : K) (v : V) m :
+  get k' (set k v (del k m)) = if eq_dec k' k then Some v else get k' m.
+Proof. rewrite get_set. destruct (eq_dec k' k) as [|Hne]; [reflexivity|]. apply get_del_other. exact Hne. Qed.
+
+Lemma token_step s msg s' c t m o :
+  exec_msg s msg = Some s' -> get (c, t) (nfts s) = Some m -> get (c, t) (owners s) = Some o ->
+  (get (c, t) (nfts s') = Some m /\ get (c, t) (owners s') = Some o)
+  \/ (exists n u h d r, msg = Transfer o c t n u h d r
+        /\ get (c, t) (nfts s') = Some (apply_changes m n u h d) /\ get (c, t) (owners s') = Some r)
+  \/ (exists n u h d, msg = Edit o c t n u h d
+        /\ get (c, t) (nfts s') = Some (apply_changes m n u h d) /\ get (c, t) (owners s') = Some o)
+  \/ (msg = Burn o c t /\ get (c, t) (nfts s') = None /\ get (c, t) (owners s') = None).
+Proof.
+  intros He Hm Ho.
+  destruct msg as [a c0 mr ur d0 o0|a c0 t0 n u h d r|a c0 t0 n u h d|a c0 t0 n u h d r|a c0 t0|a c0 r]; simpl in He.
+  - apply issue_ok in He. destruct He as (_ & _ & _ & ->). left. split; assumption.
+  - apply mint_ok in He. destruct He as (cl & _ & _ & Ht & _ & _ & ->). left.
+    assert (Hne : (c, t) <> (c0, t0)) by congruence.
+    simpl. rewrite !get_set_other by exact Hne. split; assumption.
+  - apply edit_ok in He. destruct He as (cl & _ & _ & Ha & [[_ ->]|(m0 & Hm0 & ->)]); [left; split; assumption|].
+    destruct (eq_dec (c, t) (c0, t0)) as [Heq|Hne].
+    + inversion Heq; subst c0 t0. right. right. left.
+      assert (a = o) by congruence. assert (m0 = m) by congruence. subst a m0.
+      exists n, u, h, d. simpl. rewrite get_set_same. auto.
+    + left. simpl. rewrite get_set_other by exact Hne. split; assumption.
+  - apply transfer_ok in He. destruct He as (cl & m0 & _ & Hm0 & Ha & _ & _ & Hs').
+    destruct (eq_dec (c, t) (c0, t0)) as [Heq|Hne].
+    + inversion Heq; subst c0 t0. right. left.
+      assert (a = o) by congruence. assert (m0 = m) by congruence. subst a m0.
+      exists n, u, h, d, r. split; [reflexivity|].
+      destruct Hs' as [[Hch ->]| ->]; simpl.
+      * rewrite (apply_nochange m n u h d Hch), get_set_same. auto.
+      * rewrite !get_set_same. auto.
+    + left. destruct Hs' as [[Hch ->]| ->]; simpl.
+      * rewrite get_set_other, get_del_other by exact Hne. split; assumption.
+      * rewrite !get_set_other, get_del_other by exact Hne. split; assumption.
+  - apply burn_ok in He. destruct He as (Ha & _ & ->).
+    destruct (eq_dec (c, t) (c0, t0)) as [Heq|Hne].
+    + inversion Heq; subst c0 t0. right. right. right.
+      assert (a = o) by congruence. subst a. simpl. rewrite !get_del_same. auto.
+    + left. simpl. rewrite !get_del_other by exact Hne. split; assumption.
+  - apply handover_ok in He. destruct He as (cl & _ & _ & _ & ->). left. split; assumption.
+Qed.
+
+Lemma class_step s msg s' c cl :
+  exec_msg s msg = Some s' -> get c (classes s) = Some cl ->
+  get c (classes s') = Some cl
+  \/ (exists r, msg = TransferDenom (c_creator cl) c r /\ get c (classes s') = Some (c_with_creator cl r)).
+Proof.
+  intros He Hc.
+  destruct msg as [a c0 mr ur d0 o0|a c0 t0 n u h d r|a c0 t0 n u h d|a c0 t0 n u h d r|a c0 t0|a c0 r]; simpl in He.
+  - apply issue_ok in He. destruct He as (_ & _ & Hn & ->). left. simpl.
+    rewrite get_set_other; [exact Hc|congruence].
+  - apply mint_ok in He. destruct He as (cl0 & _ & _ & _ & _ & _ & ->). left. exact Hc.
+  - apply edit_ok in He. destruct He as (cl0 & _ & _ & _ & [[_ ->]|(m0 & _ & ->)]); left; exact Hc.
+  - apply transfer_ok in He. destruct He as (cl0 & m0 & _ & _ & _ & _ & _ & [[_ ->]| ->]); left; exact Hc.
+  - apply burn_ok in He. destruct He as (_ & _ & ->). left. exact Hc.
+  - apply handover_ok in He. destruct He as (cl0 & Hc0 & Ha & _ & ->). simpl.
+    destruct (eq_dec c c0) as [->|Hne].
+    + right. assert (cl0 = cl) by congruence. subst cl0. exists r. rewrite get_set_same. subst a. auto.
+    + left. rewrite get_set_other by exact Hne. exact Hc.
+Qed.
+
+Lemma with_creator_twice cl r x : c_with_creator (c_with_creator cl r) x = c_with_creator cl x.
+Proof. destruct cl as [[[[a m] u] d] o]. reflexivity. Qed.
+Lemma same_static cl cl' : c_with_creator cl' 0 = c_with_creator cl 0 ->
+  c_updr cl' = c_updr cl /\ c_mintr cl' = c_mintr cl.
+Proof.
+  destruct cl as [[[[a m] u] d] o], cl' as [[[[a' m'] u'] d'] o']. simpl. intros Heq. inversion Heq. auto.
+Qed.
+
+Lemma next_cases s st :
+  (next s st = s /\ (st = Block \/ ok s st = false))
+  \/ (exists msg s', st = Msg msg /\ exec_msg s msg = Some s' /\ next s st = s' /\ ok s st = true).
+Proof.
+  unfold next, ok. destruct st as [msg|]; simpl; [|left; auto].
+  destruct (exec_msg s msg) as [s'|] eqn:He; [right; exists msg, s'; auto|left; auto].
+Qed.
+
+Lemma class_static steps : forall s c cl, get c (classes s) = Some cl ->
+  exists cl', get c (classes (run s steps)) = Some cl' /\ c_with_creator cl' 0 = c_with_creator cl 0.
+Proof.
+  induction steps as [|st rest IH]; intros s c cl Hc; simpl; [exists cl; auto|].
+  destruct (next_cases s st) as [[-> _]|(msg & s' & -> & He & -> & _)]; [apply IH; exact Hc|].
+  destruct (class_step s msg s' c cl He Hc) as [Hc'|(r & _ & Hc')].
+  - apply IH. exact Hc'.
+  - destruct (IH s' c _ Hc') as (cl' & Hg & Hs). exists cl'. split; [exact Hg|].
+    rewrite Hs. apply with_creator_twice.
+Qed.
+
+(** ** authority *)
+Lemma only_owner_lemma s msg s' : exec_msg s msg = Some s' ->
+  match msg with
+  | Transfer a c t _ _ _ _ _ | Edit a c t _ _ _ _ | Burn a c t => get_owner s c t = Some a
+  | _ => True
+  end.
+Proof.
+  destruct msg as [a c0 mr ur d0 o0|a c0 t0 n u h d r|a c0 t0 n u h d|a c0 t0 n u h d r|a c0 t0|a c0 r]; simpl; intros He; auto.
+  - apply edit_ok in He. destruct He as (cl & _ & _ & Ha & _). exact Ha.
+  - apply transfer_ok in He. destruct He as (cl & m & _ & _ & Ha & _). exact Ha.
+  - apply burn_ok in He. destruct He as (Ha & _). exact Ha.
+Qed.
+
+Lemma mint_lemma s a c t n u h d r s' : exec_msg s (Mint a c t n u h d r) = Some s' ->
+  (exists cl, get c (classes s) = Some cl /\ (c_mintr cl = true -> c_creator cl = a))
+  /\ get (c, t) (nfts s) = None
+  /\ get (c, t) (nfts s') = Some (n, u, h, d) /\ get_owner s' c t = Some r
+  /\ (forall k, k <> (c, t) -> get k (nfts s') = get k (nfts s) /\ get k (owners s') = get k (owners s))
+  /\ classes s' = classes s.
+Proof.
+  simpl. intros He. apply mint_ok in He. destruct He as (cl & Hc & Hm & Ht & _ & _ & ->).
+  split; [exists cl; auto|]. split; [exact Ht|]. unfold get_owner. simpl. rewrite !get_set_same.
+  repeat split; auto; apply get_set_other; assumption.
+Qed.
+
+(** ** update-restricted classes *)
+Lemma frozen_step s msg s' c t cl m :
+  Inv s -> exec_msg s msg = Some s' ->
+  get c (classes s) = Some cl -> c_updr cl = true -> get (c, t) (nfts s) = Some m ->
+  get (c, t) (nfts s') = Some m
+  \/ (exists a, msg = Burn a c t /\ get_owner s c t = Some a /\ get (c, t) (nfts s') = None).
+Proof.
+  intros HI He Hc Hu Hm.
+  destruct HI as (_ & _ & Hiff & _).
+  destruct (present_iff _ _ (Hiff (c, t))) as [o Ho]; [congruence|].
+  destruct (token_step s msg s' c t m o He Hm Ho) as [[H1 _]|[(n & u & h & d & r & -> & H1 & _)|[(n & u & h & d & -> & H1 & _)|(-> & H1 & _)]]].
+  - left. exact H1.
+  - left. simpl in He. apply transfer_ok in He. destruct He as (cl0 & m0 & Hc0 & _ & _ & _ & Hch & _).
+    assert (cl0 = cl) by congruence. subst cl0. rewrite (apply_nochange m n u h d (Hch Hu)) in H1. exact H1.
+  - exfalso. simpl in He. apply edit_ok in He. destruct He as (cl0 & Hc0 & Hu0 & _).
+    assert (cl0 = cl) by congruence. subst cl0. congruence.
+  - right. exists o. auto.
+Qed.
+
+Definition burned_in (s : state) (steps : list step) (c : cid) (t : tid) : Prop :=
+  exists pre a post, steps = pre ++ Msg (Burn a c t) :: post /\ ok (run s pre) (Msg (Burn a c t)) = true.
+
+Lemma burned_in_cons s st rest c t : burned_in (next s st) rest c t -> burned_in s (st :: rest) c t.
+Proof. intros (pre & a & post & -> & Hok). exists (st :: pre), a, post. split; [reflexivity|exact Hok]. Qed.
+
+Lemma frozen_history steps : forall s c t cl m,
+  Inv s -> get c (classes s) = Some cl -> c_updr cl = true -> get (c, t) (nfts s) = Some m ->
+  ~ burned_in s steps c t ->
+  get (c, t) (nfts (run s steps)) = Some m.
+Proof.
+  induction steps as [|st rest IH]; intros s c t cl m HI Hc Hu Hm Hnb; simpl; [exact Hm|].
+  assert (Hnb' : ~ burned_in (next s st) rest c t) by (intros Hb; apply Hnb, burned_in_cons, Hb).
+  destruct (next_cases s st) as [[Hn _]|(msg & s' & -> & He & Hn & Hok)]; rewrite Hn in *.
+  - apply (IH s c t cl m); assumption.
+  - destruct (frozen_step s msg s' c t cl m HI He Hc Hu Hm) as [Hm'|(a & -> & _ & _)].
+    + destruct (class_step s msg s' c cl He Hc) as [Hc'|(r & _ & Hc')].
+      * apply (IH s' c t cl m); auto. apply (exec_msg_inv s msg s'); assumption.
+      * apply (IH s' c t (c_with_creator cl r) m); auto; [apply (exec_msg_inv s msg s'); assumption|].
+        destruct cl as [[[[a0 m0] u0] d0] o0]. exact Hu.
+    + exfalso. apply Hnb. exists [], a, rest. split; [reflexivity|exact Hok].
+Qed.
+
+(** ** ids *)
+Lemma persists_until_burned steps : forall s c t,
+  Inv s -> get (c, t) (nfts s) <> None -> ~ burned_in s steps c t ->
+  get (c, t) (nfts (run s steps)) <> None.
+Proof.
+  induction steps as [|st rest IH]; intros s c t HI Hm Hnb; simpl; [exact Hm|].
+  assert (Hnb' : ~ burned_in (next s st) rest c t) by (intros Hb; apply Hnb, burned_in_cons, Hb).
+  destruct (next_cases s st) as [[Hn _]|(msg & s' & -> & He & Hn & Hok)]; rewrite Hn in *.
+  - apply IH; assumption.
+  - assert (HI' : Inv s') by (apply (exec_msg_inv s msg s'); assumption).
+    destruct (get (c, t) (nfts s)) as [m|] eqn:Hg; [|congruence].
+    destruct HI as (_ & _ & Hiff & _).
+    destruct (present_iff _ _ (Hiff (c, t))) as [o Ho]; [congruence|].
+    destruct (token_step s msg s' c t m o He Hg Ho) as [[H1 _]|[(n & u & h & d & r & _ & H1 & _)|[(n & u & h & d & _ & H1 & _)|(-> & _ & _)]]].
+    + apply IH; auto. congruence.
+    + apply IH; auto. congruence.
+    + apply IH; auto. congruence.
+    + exfalso. apply Hnb. exists [], o, rest. split; [reflexivity|exact Hok].
+Qed.
+
+Lemma class_persists steps s c : get c (classes s) <> None -> get c (classes (run s steps)) <> None.
+Proof.
+  destruct (get c (classes s)) as [cl|] eqn:Hc; [|congruence]. intros _.
+  destruct (class_static steps s c cl Hc) as (cl' & Hg & _). congruence.
+Qed.
+
+(** ** supply = tokens = balances *)
+Definition addr_of (e : addr * cid * tid) : addr := let '(a, _, _) := e in a.
+
+Lemma balance_count s a c : Inv s ->
+  balance s a c = count (fun e => (addr_of e =? a) && (cls_of e =? c)) (index s).
+Proof.
+  intros ((_ & Hidx) & _ & Hiff & _). unfold balance, owned_by. rewrite map_length.
+  fold (count (fun '(a', c', t') => (a' =? a) && (c' =? c) && has_nft s c' t') (index s)).
+  apply count_ext. intros [[a' c'] t'] Hin. simpl.
+  assert (Hh : has_nft s c' t' = true).
+  { apply has_true. apply Hiff. apply Hidx in Hin. congruence. }
+  rewrite Hh, Bool.andb_true_r. reflexivity.
+Qed.
+
+Lemma zsum_map_zero {A} (l : list A) : zsum (map (fun _ => 0) l) = 0.
+Proof. induction l; simpl; lia. Qed.
+Lemma zsum_map_add {A} (f g : A -> Z) l : zsum (map (fun a => f a + g a) l) = zsum (map f l) + zsum (map g l).
+Proof. induction l; simpl; lia. Qed.
+Lemma zsum_indicator (x : Z) l : NoDup l -> In x l -> zsum (map (fun a => b2z (x =? a)) l) = 1.
+Proof.
+  induction l as [|y l IH]; simpl; [tauto|]. intros Hnd Hin. inversion Hnd as [|? ? Hny Hnd']; subst.
+  destruct (Z.eq_dec x y) as [->|Hne].
+  - rewrite Z.eqb_refl. change (b2z true) with 1.
+    assert (Hz : zsum (map (fun a => b2z (y =? a)) l) = 0).
+    { clear IH Hnd Hnd' Hin. induction l as [|z l IHl]; simpl; [reflexivity|].
+      assert (Hf : y =? z = false) by (apply Z.eqb_neq; intros ->; apply Hny; left; reflexivity).
+      rewrite Hf. simpl. apply IHl. intros Hin. apply Hny. right. exact Hin. }
+    lia.
+  - assert (Hf : x =? y = false) by (apply Z.eqb_neq; exact Hne). rewrite Hf. simpl.
+    apply IH; [exact Hnd'|]. destruct Hin; [congruence|assumption].
+Qed.
+
+Lemma sum_count (l : list addr) idx c :
+  NoDup l -> (forall e, In e idx -> cls_of e = c -> In (addr_of e) l) ->
+  zsum (map (fun a => count (fun e => (addr_of e =? a) && (cls_of e =? c)) idx) l) = count (fun e => cls_of e =? c) idx.
+Proof.
+  intros Hnd. induction idx as [|e idx IH]; intros Hcov.
+  - rewrite count_nil. apply zsum_map_zero.
+  - rewrite count_cons.
+    rewrite (map_ext _ (fun a => b2z ((addr_of e =? a) && (cls_of e =? c))
+                                + count (fun e0 => (addr_of e0 =? a) && (cls_of e0 =? c)) idx))
+      by (intros a; rewrite count_cons; reflexivity).
+    rewrite zsum_map_add, IH by (intros e0 Hin; apply Hcov; right; exact Hin). f_equal.
+    destruct (cls_of e =? c) eqn:Hc.
+    + rewrite (map_ext _ (fun a => b2z (addr_of e =? a))) by (intros a; rewrite Bool.andb_true_r; reflexivity).
+      apply zsum_indicator; [exact Hnd|]. apply Hcov; [left; reflexivity|]. apply Z.eqb_eq. exact Hc.
+    + rewrite (map_ext _ (fun _ => 0)) by (intros a; rewrite Bool.andb_false_r; reflexivity).
+      apply zsum_map_zero.
+Qed.
+
+Lemma supply_lemma s : Inv s ->
+  (forall c, total_supply s c = n_tokens s c)
+  /\ (forall c, n_index s c = n_tokens s c)
+  /\ (forall c, n_tokens s c = Z.of_nat (length (tokens_of s c)))
+  /\ (forall c (l : list addr), NoDup l -> (forall a t, In (a, c, t) (index s) -> In a l) ->
+        zsum (map (fun a => balance s a c) l) = total_supply s c).
+Proof.
+  intros HI. pose proof HI as (_ & _ & _ & Hsup & Hidx & _).
+  split; [exact Hsup|]. split; [exact Hidx|].
+  split; [intros c; unfold n_tokens, count, tokens_of; rewrite map_length; reflexivity|].
+  intros c l Hnd Hcov. rewrite Hsup, <- Hidx, n_index_eq.
+  rewrite (map_ext _ (fun a => count (fun e => (addr_of e =? a) && (cls_of e =? c)) (index s)))
+    by (intros a; apply balance_count; exact HI).
+  apply sum_count; [exact Hnd|]. intros [[a c'] t] Hin Hc. simpl in *. subst c'. apply (Hcov a t). exact Hin.
+Qed.
+
+Lemma owner_unique_lemma s : Inv s ->
+  NoDup (index s)
+  /\ (forall a c t, In (a, c, t) (index s) <-> get_owner s c t = Some a)
+  /\ (forall c t, has_nft s c t = true <-> exists a, get_owner s c t = Some a)
+  /\ (forall a a' c t, In (a, c, t) (index s) -> In (a', c, t) (index s) -> a = a')
+  /\ (forall c t a, get_owner s c t = Some a -> 0 <= a)
+  /\ (forall c t, has_nft s c t = true -> has_class s c = true).
+Proof.
+  intros ((Hnd & Hidx) & _ & Hiff & _ & _ & Hcls & Hrng). unfold get_owner, has_nft, has_class.
+  split; [exact Hnd|]. split; [exact Hidx|].
+  split.
+  { intros c t. rewrite has_true, (Hiff (c, t)). destruct (get (c, t) (owners s)) as [a|].
+    - split; [intros _; exists a; reflexivity|discriminate].
+    - split; [congruence|intros [a Ha]; discriminate]. }
+  split; [intros a a' c t H1 H2; apply Hidx in H1, H2; congruence|].
+  split; [intros c t a; apply Hrng|].
+  intros c t. rewrite !has_true. apply Hcls.
+Qed.
+
+(** ** statements over reachable states (Props/C14.v) *)
+Lemma Reachable_run s steps : Reachable s -> Reachable (run s steps).
+Proof.
+  intros [pre ->]. exists (pre ++ steps). clear. generalize init. induction pre as [|st pre IH]; intros s0; simpl; [reflexivity|apply IH].
+Qed.
+
+Lemma r_owner_unique s : Reachable s ->
+  NoDup (index s)
+  /\ (forall a c t, In (a, c, t) (index s) <-> get_owner s c t = Some a)
+  /\ (forall c t, has_nft s c t = true <-> exists a, get_owner s c t = Some a)
+  /\ (forall a a' c t, In (a, c, t) (index s) -> In (a', c, t) (index s) -> a = a')
+  /\ (forall c t a, get_owner s c t = Some a -> 0 <= a)
+  /\ (forall c t, has_nft s c t = true -> has_class s c = true).
+Proof. intros Hr. apply owner_unique_lemma, Reachable_Inv, Hr. Qed.
+
+Lemma r_supply s : Reachable s ->
+  (forall c, total_supply s c = n_tokens s c)
+  /\ (forall c, n_index s c = n_tokens s c)
+  /\ (forall c, n_tokens s c = Z.of_nat (length (tokens_of s c)))
+  /\ (forall c (l : list addr), NoDup l -> (forall a t, In (a, c, t) (index s) -> In a l) ->
+        zsum (map (fun a => balance s a c) l) = total_supply s c).
+Proof. intros Hr. apply supply_lemma, Reachable_Inv, Hr. Qed.
+
+Lemma r_token_step s msg s' c t m o : Reachable s ->
+  exec_msg s msg = Some s' -> get (c, t) (nfts s) = Some m -> get_owner s c t = Some o ->
+  (get (c, t) (nfts s') = Some m /\ get_owner s' c t = Some o)
+  \/ (exists n u h d r, msg = Transfer o c t n u h d r
+        /\ get (c, t) (nfts s') = Some (apply_changes m n u h d) /\ get_owner s' c t = Some r)
+  \/ (exists n u h d, msg = Edit o c t n u h d
+        /\ get (c, t) (nfts s') = Some (apply_changes m n u h d) /\ get_owner s' c t = Some o)
+  \/ (msg = Burn o c t /\ get (c, t) (nfts s') = None /\ get_owner s' c t = None).
+Proof. intros _. apply token_step. Qed.
+
+Lemma r_frozen s steps c t cl m : Reachable s ->
+  get c (classes s) = Some cl -> c_updr cl = true -> get (c, t) (nfts s) = Some m ->
+  ~ burned_in s steps c t ->
+  get (c, t) (nfts (run s steps)) = Some m.
+Proof. intros Hr. apply frozen_history, Reachable_Inv, Hr. Qed.
+
+Lemma r_frozen_step s msg s' c t cl m : Reachable s -> exec_msg s msg = Some s' ->
+  get c (classes s) = Some cl -> c_updr cl = true -> get (c, t) (nfts s) = Some m ->
+  get (c, t) (nfts s') = Some m
+  \/ (exists a, msg = Burn a c t /\ get_owner s c t = Some a /\ get (c, t) (nfts s') = None).
+Proof. intros Hr. apply frozen_step, Reachable_Inv, Hr. Qed.
+
+Lemma r_ids s steps c t : Reachable s -> get (c, t) (nfts s) <> None -> ~ burned_in s steps c t ->
+  get (c, t) (nfts (run s steps)) <> None
+  /\ (forall a n u h d r, exec_msg (run s steps) (Mint a c t n u h d r) = None).
+Proof.
+  intros Hr Hm Hnb.
+  assert (Hp : get (c, t) (nfts (run s steps)) <> None) by (apply persists_until_burned; auto; apply Reachable_Inv, Hr).
+  split; [exact Hp|]. intros a n u h d r.
+  destruct (exec_msg (run s steps) (Mint a c t n u h d r)) as [s'|] eqn:He; [|reflexivity].
+  apply mint_lemma in He. destruct He as (_ & Hn & _). congruence.
+Qed.
+
+Lemma issue_lemma s a c mr ur d o s' : exec_msg s (IssueDenom a c mr ur d o) = Some s' ->
+  get c (classes s) = None /\ get c (classes s') = Some (a, mr, ur, d, o)
+  /\ (forall c', c' <> c -> get c' (classes s') = get c' (classes s))
+  /\ nfts s' = nfts s /\ owners s' = owners s.
+Proof.
+  simpl. intros He. apply issue_ok in He. destruct He as (_ & _ & Hn & ->). simpl.
+  rewrite get_set_same. repeat split; auto. intros c' Hne. apply get_set_other. exact Hne.
+Qed.
+
+Lemma r_class_history s steps c cl : get c (classes s) = Some cl ->
+  exists cl', get c (classes (run s steps)) = Some cl'
+              /\ c_with_creator cl' 0 = c_with_creator cl 0
+              /\ c_mintr cl' = c_mintr cl /\ c_updr cl' = c_updr cl
+              /\ (forall a mr ur d o, exec_msg (run s steps) (IssueDenom a c mr ur d o) = None).
+Proof.
+  intros Hc. destruct (class_static steps s c cl Hc) as (cl' & Hg & Hs). exists cl'.
+  destruct (same_static cl cl' Hs) as [Hu Hm]. repeat split; auto.
+  intros a mr ur d o. destruct (exec_msg (run s steps) (IssueDenom a c mr ur d o)) as [s'|] eqn:He; [|reflexivity].
+  apply issue_lemma in He. destruct He as (Hn & _). congruence.
+Qed.
